@@ -59,12 +59,14 @@ CROSS = ("pc", "BA", "I", "X", "Y", "U", "S", "f", "imr", "isr", "stack", "ram_c
          "in_irq", "next_mti", "next_sti", "timer_enabled", "cycles", "instrs", "pressed", "kol", "koh")
 
 
-def scenario(main, body, imr0, timer, kb_irq=True):
+def scenario(main, body, imr0, timer, kb_irq=True, read_kil=True):
     reset = (bytes([0x0F]) + le3(0xB9000) + bytes([0x0E]) + le3(0xBA000) + bytes([0x32, 0xCC, 0xF0, 0xFF]) +
              bytes([0x32, 0xCC, 0xF1, 0x07, 0x32, 0xCC, 0xF8, 0x18, 0x32, 0xCC, 0xFB, imr0, 0x08, 0x3F, 0xA8, 0x00, 0x20, 0x00, 0x0C]) + le3(0xB8100))
     # (the store to 0xC0200 aims at the ROM window: it must stay without effect before and after a restore)
     loop = (bytes([0x32, 0x80, 0xF2, 0xB0, 0x24, 0x6C, 0x00, 0xA8, 0x02, 0x20, 0x00, 0xA8, 0x00, 0x02, 0x0C,
                    0x04, SUB & 0xFF, (SUB >> 8) & 0xFF]) + SLEEPS[main])
+    if not read_kil:
+        loop = loop[3:]      # never read KIL: key events pile up in the queue (a full queue is a state to snapshot too)
     loop += bytes([0x13, len(loop) + 2])
     sub = bytes([0x40, 0x11, 0x32, 0xA0, 0x50, 0x06])
     handler = bytes([0x00, 0x28]) + BODIES[body] + bytes([0x38, 0x01])
@@ -83,11 +85,21 @@ def make_run(r, tier):
     body = r.choice(list(BODIES))
     imr0 = r.choice(IMR_VALUES)
     timer = {"enabled": r.random() < 0.9, "mti": r.choice((1, 2, 3, 4, 5, 7, 9)), "sti": r.choice((0, 2, 3, 5, 8, 9))}
-    scen = scenario(main, body, imr0, timer, kb_irq=r.random() < 0.85)
+    flood = r.random() < 0.15
+    if flood:
+        # several keys held and never read: press + repeat events fill the 8-entry queue within a few dozen timer ticks
+        body = r.choice(("empty", "lcd_cmd"))
+        timer = {"enabled": True, "mti": 1, "sti": r.choice((0, 3))}
+        main = r.choice(("nop", "wait"))
+    scen = scenario(main, body, imr0, timer, kb_irq=r.random() < 0.85, read_kil=not flood)
     n = r.randrange(24, 41) if tier == "quick" else r.randrange(40, 121)
     placed = {}
     for _ in range(r.randrange(0, 9)):
         placed[r.randrange(4, n)] = r.choice(EVENTS)
+    if flood:
+        n = max(n, 56)
+        for j, kname in enumerate(KEYS):
+            placed[4 + j] = ("press", kname)
     return scen, n, placed
 
 
@@ -362,6 +374,8 @@ def cross_compare(res, direction, ref, got, case):
     if d:
         tags = {"power": ref["power"], "keys_held": bool(ref.get("pressed")), "fifo_nonempty": bool(ref["fifo"]),
                 "in_handler": bool(ref["in_irq"])}
+        if len(ref["fifo"]) >= 8:
+            tags["queue_full"] = True
         res.violation(dict({"clause": "cross_loaded_state_differs", "direction": direction, "fields": sorted(d)}, **tags), case,
                       {k2: (ref.get(k2), got.get(k2)) for k2 in d if not k2.startswith("imem") and k2 != "lcd_meta"} |
                       ({"imem_bytes": {f"{o:02X}": (xa[o], xb[o]) for o in imem_bad[:16]}} if imem_bad else {}) |
